@@ -18,6 +18,11 @@ theorem C12_bound_literalOnly (α β : Ambient) (var : String) (nr : Nat) (cname
     printBound .literalOnly α var nr cname aggr b = printBound .literalOnly β var nr cname aggr b := by
   cases b <;> rfl
 
+/-- Likewise when a negated integer literal is additionally printed as a number. -/
+theorem C12_bound_literalOrNegated (α β : Ambient) (var : String) (nr : Nat) (cname aggr : String) (b : BoundExpr) :
+    printBound .literalOrNegated α var nr cname aggr b = printBound .literalOrNegated β var nr cname aggr b := by
+  cases b <;> rfl
+
 /-- With the legacy rule it is independent only for bounds that are literals, function calls, operator expressions
     or unresolved group references — not for constants / attributes / derived attributes. -/
 theorem C12_bound_legacy_partial (α β : Ambient) (var : String) (nr : Nat) (cname aggr : String) (b : BoundExpr)
@@ -43,6 +48,7 @@ theorem C12_bound_current (α β : Ambient) (var : String) (nr : Nat) (cname agg
     printBound currentRule α var nr cname aggr b = printBound currentRule β var nr cname aggr b := by
   cases hr : currentRule with
   | literalOnly => exact C12_bound_literalOnly α β var nr cname aggr b
+  | literalOrNegated => exact C12_bound_literalOrNegated α β var nr cname aggr b
   | legacy =>
     rw [hr] at h
     apply C12_bound_legacy_partial
@@ -51,6 +57,7 @@ theorem C12_bound_current (α β : Ambient) (var : String) (nr : Nat) (cname agg
     simp [safeFor] at h
 
 theorem C12_safe_literalOnly (b : BoundExpr) : safeFor .literalOnly b = true := rfl
+theorem C12_safe_literalOrNegated (b : BoundExpr) : safeFor .literalOrNegated b = true := rfl
 
 /-! ## hash-table iteration order -/
 
